@@ -391,8 +391,9 @@ def gen_cases(ctx):
                 depth = 3 if n <= 2 else 2
                 cases.append({'cfg': cfg([uniform_axis(p, n)], d, k % 2 == 0), 'mode': 'tree', 'depth': depth,
                               'max_nodes': 4000, 'seed': rng.randrange(1 << 30), 'what': '1d-n%d-depth%d' % (n, depth)})
-            cases.append({'cfg': cfg([uniform_axis(p, 4)], d, k % 2 == 1), 'mode': 'tree', 'depth': 2,
-                          'max_nodes': 1400, 'seed': rng.randrange(1 << 30), 'what': '1d-n4-depth2'})
+            if k % 2 == 0:
+                cases.append({'cfg': cfg([uniform_axis(p, 4)], d, k % 4 == 0), 'mode': 'tree', 'depth': 2,
+                              'max_nodes': 1400, 'seed': rng.randrange(1 << 30), 'what': '1d-n4-depth2'})
         # three calls on three coarse cells, split by the first call's subset (bit mask over the 3 cells):
         # exhaustive below first calls that mark one or two cells (27216 + 6 histories of 3 calls);
         # below the first call marking all three cells (46656 histories) the later subsets are sampled
@@ -403,7 +404,7 @@ def gen_cases(ctx):
                       'root_masks': [7], 'seed': rng.randrange(1 << 30), 'what': '1d-n3-depth3-sampled', 'light': True})
         for (p, d) in [(1, 1), (2, 1), (2, None), (2, 2)]:
             cases.append({'cfg': cfg([uniform_axis(p, 2), uniform_axis(p, 2)], d, True), 'mode': 'tree', 'depth': 2,
-                          'max_nodes': 6000, 'seed': rng.randrange(1 << 30), 'what': '2d-2x2-depth2'})
+                          'max_nodes': 3000, 'seed': rng.randrange(1 << 30), 'what': '2d-2x2-depth2'})
     else:
         for n in (1, 2, 3):
             cases.append({'cfg': cfg([uniform_axis(2, n)], 1, True), 'mode': 'tree', 'depth': 2,
@@ -434,7 +435,7 @@ def gen_cases(ctx):
                 {'kind': 'refine', 'marks': [], 'container': cont, 'trunc': False},
                 {'kind': 'region', 'lv': 4, 'pred': {'type': 'ball', 'c': [0, 0], 'r2': [1, 7]}}]})
     # --- seeded random histories
-    nrand = 1500 if thorough else 70
+    nrand = 1000 if thorough else 70
     for _ in range(nrand):
         dim = rng.choice([1, 1, 2, 2, 2, 3])
         axes = []
@@ -469,7 +470,8 @@ def run_driver(ctx, cases, nproc=8):
     full = ctx.tier == 'thorough'
 
     def one(grp):
-        out = ctx.impl.run('harness/impl/c04_driver.py', {'cases': grp, 'full': full}, timeout=3000)
+        out = ctx.impl.run('harness/impl/c04_driver.py', {'cases': grp, 'full': full}, timeout=3000,
+                           extra_env={'OMP_NUM_THREADS': '1', 'OPENBLAS_NUM_THREADS': '1', 'MKL_NUM_THREADS': '1'})
         return out['results'], out['infos']
     with ThreadPoolExecutor(max_workers=nproc) as ex:
         outs = list(ex.map(one, groups))
@@ -629,7 +631,7 @@ def run(ctx):
     ctx.cov['input_distribution'] = {'histories_by_family': dist, 'calls_observed': opkinds}
     ctx.cov['exhaustive'] = ('per tree: all non-empty subsets of active cells at every call unless listed in subsets_sampled_in; '
                              'quick: 1-D n<=3 two calls, n=2 three calls, n=4 one call, 2-D 2x2 first call; thorough: 1-D n<=2 three calls (9 configurations), '
-                             'n=3 two calls (9 configurations) and three calls below first calls marking <=2 cells (one configuration), n=4 two calls, '
+                             'n=3 two calls (9 configurations) and three calls below first calls marking <=2 cells (one configuration), n=4 two calls (5 configurations), '
                              '2-D 2x2 first call exhaustive, second call up to the node budget')
     ctx.cov['subsets_sampled_in'] = nonexh
     for c, n in nodes[:1] + nodes[-1:]:
